@@ -1,0 +1,54 @@
+//go:build verif
+
+// Export shims for the verification harness under /verif (build tag "verif" only), property C11:
+// config and secrets are released only to the identity entitled to them.
+// Add-only; nothing here is compiled into a normal build.
+package xds
+
+import (
+	credscontroller "istio.io/istio/pilot/pkg/credentials"
+	"istio.io/istio/pilot/pkg/model"
+	"istio.io/istio/pkg/spiffe"
+)
+
+// VerifC11CheckConnectionIdentity exposes checkConnectionIdentity.
+func VerifC11CheckConnectionIdentity(proxy *model.Proxy, identities []string) (*spiffe.Identity, error) {
+	return checkConnectionIdentity(proxy, identities)
+}
+
+// VerifC11Authorize runs (*DiscoveryServer).authorize on a bare connection around proxy, the way
+// initConnection does after initProxyMetadata; the outcome is the error and proxy.VerifiedIdentity.
+func VerifC11Authorize(proxy *model.Proxy, identities []string) error {
+	con := newConnection("", nil)
+	con.proxy = proxy
+	return (&DiscoveryServer{}).authorize(con, identities)
+}
+
+// VerifC11Parsed is the projection of the unexported SecretResource wrapper.
+type VerifC11Parsed struct {
+	ResourceName, ResourceType, Name, Namespace, Cluster string
+	// CacheKey is what SecretResource.Key() returns (the XdsCache key of the entry).
+	CacheKey string
+}
+
+func verifC11Project(rs []SecretResource) []VerifC11Parsed {
+	out := make([]VerifC11Parsed, 0, len(rs))
+	for _, r := range rs {
+		out = append(out, VerifC11Parsed{
+			ResourceName: r.ResourceName, ResourceType: r.ResourceType, Name: r.Name, Namespace: r.Namespace,
+			Cluster: string(r.Cluster), CacheKey: r.Key().(string),
+		})
+	}
+	return out
+}
+
+// VerifC11ParseResources exposes (*SecretGen).parseResources (order of names preserved).
+func VerifC11ParseResources(s *SecretGen, names []string, proxy *model.Proxy) []VerifC11Parsed {
+	return verifC11Project(s.parseResources(names, proxy))
+}
+
+// VerifC11FilterAuthorized exposes filterAuthorizedResources applied to parseResources(names), i.e. the
+// first statement of the Generate loop, with the secrets controller supplied by the caller.
+func VerifC11FilterAuthorized(s *SecretGen, names []string, proxy *model.Proxy, secrets credscontroller.Controller) []VerifC11Parsed {
+	return verifC11Project(filterAuthorizedResources(s.parseResources(names, proxy), proxy, secrets))
+}
